@@ -301,3 +301,52 @@ func init() {
 		}
 	}
 }
+
+func init() {
+	// ---------------------------------------------------------------- C15
+	histChecks["C15"] = func(tier string) []*hist.Scenario {
+		jobs := func(minAge time.Duration, maxDel int, names ...string) []model.Op {
+			var out []model.Op
+			for _, n := range names {
+				out = append(out, job(n, minAge, maxDel))
+			}
+			return out
+		}
+		a := append([]model.Op{
+			pub1("T0", "K1", 0), pub1("T0", "", 1),
+			pull("S0", 1), pull("S0", 10), pull("S1", 10),
+			ack("S0", "oldest"), ack("S0", "all"), ack("S1", "all"), nack("S0", "oldest"),
+			seekT("S0", "before-all"),
+			tick("lease+"), tick("+1h"), tick("ret+"),
+		}, jobs(0, 1, "prune-completed-deliveries", "prune-expired-deliveries", "prune-completed-messages")...)
+		a = append(a, jobs(0, 100, "prune-completed-deliveries", "prune-expired-deliveries", "prune-completed-messages")...)
+		a = append(a, jobs(time.Hour, 100, "prune-completed-deliveries", "prune-completed-messages")...)
+		b := append([]model.Op{
+			pub1("T0", "", 0),
+			pull("S0", 10), ack("S0", "all"), pull("SD", 10),
+			nack("S0", "all"), sweep(),
+			delSub("S0"), mkSub("S0"), delSub("SD"), delTopic("TD"), delTopic("T0"), mkTopic("T0"),
+			snap("S0", "N0"), snap("SD", "N1"),
+			tick("lease+"), tick("+1h"), tick("ttl+"),
+		}, jobs(0, 100, model.JobNames...)...)
+		b = append(b, jobs(time.Hour, 1, "prune-deleted-subscription-deliveries", "prune-deleted-subscriptions", "prune-deleted-topics")...)
+		return []*hist.Scenario{
+			{
+				ID: "C15/deliveries+messages", Prop: "C15", Depth: d(tier, 4, 6), Drain: true, Converge: true,
+				Cfg: model.Cfg{Topics: []string{"T0"}, Subs: []model.SubCfg{
+					{Name: "S0", Topic: "T0", Ordered: true, Retention: 3 * time.Hour},
+					{Name: "S1", Topic: "T0", Filter: fX, Retention: 40 * time.Minute},
+				}},
+				Alphabet: a,
+			},
+			{
+				ID: "C15/resources+deadletter", Prop: "C15", Depth: d(tier, 4, 5), Drain: true, Converge: true,
+				Cfg: model.Cfg{Topics: []string{"T0", "TD"}, Subs: []model.SubCfg{
+					{Name: "S0", Topic: "T0", DLTopic: "TD", MaxAttempts: 1, TTL: 3 * time.Hour},
+					{Name: "SD", Topic: "TD"},
+				}},
+				Alphabet: b,
+			},
+		}
+	}
+}
